@@ -208,7 +208,8 @@ def diffrax_seq_case(c):
     """Two runs in ONE process with solver='diffrax' (JAX) that differ only in parameter values / input samples: each against the spec."""
     fails = []
     for j, (model, arr) in enumerate(c["items"]):
-        sub = dict(c, kind="inputs_backend", model=model, inputs={c["target"]: arr}, solver="diffrax", backend="jax")
+        # clear=True is the default of run(): generated names (and therefore the source text of the vector field) are the same in both runs
+        sub = dict(c, kind="inputs_backend", model=model, inputs={c["target"]: arr}, solver="diffrax", backend="jax", run_kw=dict(clear=True))
         r = dispatch(sub)
         if r.get("status") == "violated":
             for f in r["fails"]:
@@ -236,7 +237,7 @@ def dispatch(c):
         try:
             df, outputs, _ = oracle.run_model(c["model"], c["T"], c["dt"], c.get("dts"), c["solver"], False, backend=c["backend"], inputs=arrs,
                                               **({"method": "RK45", "rtol": 1e-9, "atol": 1e-11} if c["solver"] == "scipy" else
-                                                 {"rtol": 1e-9, "atol": 1e-11} if c["solver"] == "diffrax" else {}))
+                                                 {}), **c.get("run_kw", {}))     # diffrax: the solver's own default tolerances (see diffrax_seq_case)
         except Exception as exn:
             return dict(status="violated", fails=[dict(clause="run with inputs on this backend", observed=f"{type(exn).__name__}: {exn}")])
         per_var = {}
@@ -262,6 +263,8 @@ def dispatch(c):
             sol = solve_ivp(f, (0.0, c["T"]), [y0[v] for v in svars], t_eval=times, rtol=1e-11, atol=1e-13, method="DOP853", max_step=c["dt"])
             ref = {v: sol.y[i] for i, v in enumerate(svars)}
             tol = dict(rtol=2e-4, atol=2e-6)       # piecewise-linear inputs have kinks: the tested solver is not forced onto them
+            if c["solver"] == "diffrax":
+                tol = dict(rtol=5e-3, atol=5e-3)   # default tolerances of the diffrax controller on a smooth input
         for key, path in outputs.items():
             got = np.asarray(df[key], dtype=float).reshape(len(df.index), -1)[:, 0]
             want = ref[path]
@@ -320,12 +323,13 @@ def families(tier, seed):
         out.append(dict(tag=f"interp-field/{b}", features=dict(backend=b), kind="interp_field", model=three, inputs={"p1/op/u": sig[:20]}, T=1.0, dt=0.05,
                         backend=b, seed=seed))
     import json as _json
+    smooth = [round(0.8 * float(np.sin(2 * np.pi * k / 20.0 + 0.3 * seed)), 4) for k in range(20)]     # smooth: default solver tolerances suffice
     three_b = _json.loads(_json.dumps(three))
     for nd in three_b["nodes"].values():
         nd.setdefault("over", {})
         nd["over"]["op/tau"] = nd["over"].get("op/tau", 2.0) * 1.7
     out.append(dict(tag="diffrax-two-runs/jax", features=dict(backend="jax", solver="diffrax"), kind="diffrax_seq", target="p1/op/u", T=1.0, dt=0.05,
-                    dts=0.1, items=[(three, sig[:20]), (three_b, [-x for x in sig[:20]])]))
+                    dts=0.1, items=[(three, smooth), (three_b, [-x for x in smooth])]))
     for name in VECOPS:
         for b in BACKENDS:
             out.append(dict(tag=f"{name}/{b}", features=dict(backend=b, vecop=name), kind="vecop", name=name, backend=b, seed=seed))
